@@ -9,7 +9,6 @@ CONSTANTS
   UHi <- TUHi
   Handles <- THandles
 SPECIFICATION TSpec
-INVARIANT TInv_Init
 INVARIANT Inv_Typed
 PROPERTY Prop_HeapFrame
 PROPERTY Prop_BoxFrame
